@@ -150,14 +150,37 @@ theorem key_hashSpec (blake : List UInt8 → List UInt8) (s : Str) :
   unfold Seqhash.hashSpec Seqhash.hashWith key keyWith
   have h1 : ("DNA" = "RNA") = False := by decide
   have h2 : ("DNA" = "PROTEIN") = False := by decide
-  by_cases hv : ∀ x ∈ upper s, x ∈ Seqhash.nucleotideLetters
-  · have hv' : ¬ ∃ x, x ∈ upper s ∧ ¬ x ∈ Seqhash.nucleotideLetters := fun ⟨x, hx, hn⟩ => hn (hv x hx)
-    simp [h1, h2, hv', Seqhash.canon]
-    rw [if_pos hv]
-  · have hv' : ∃ x, x ∈ upper s ∧ ¬ x ∈ Seqhash.nucleotideLetters := by
-      by_contra hne
-      exact hv fun x hx => by_contra fun hn => hne ⟨x, hx, hn⟩
-    simp [h1, h2, hv]
+  by_cases hasc : (s.any fun c => decide (c.toNat > 127)) = true
+  · simp only [hasc, if_true]
+  · simp only [hasc, Bool.false_eq_true, if_false]
+    by_cases hv : ∀ x ∈ upper s, x ∈ Seqhash.nucleotideLetters
+    · have hv' : ¬ ∃ x, x ∈ upper s ∧ ¬ x ∈ Seqhash.nucleotideLetters := fun ⟨x, hx, hn⟩ => hn (hv x hx)
+      simp [h1, h2, hv', Seqhash.canon]
+      rw [if_pos hv]
+    · have hv' : ∃ x, x ∈ upper s ∧ ¬ x ∈ Seqhash.nucleotideLetters := by
+        by_contra hne
+        exact hv fun x hx => by_contra fun hn => hne ⟨x, hx, hn⟩
+      simp [h1, h2, hv]
+
+/-- the collector compares HASHES; they agree exactly when the keys agree, provided the digest does not
+collide on the two canonical forms (explicit hypothesis: BLAKE3 collision-freeness, cf. C05) -/
+theorem hash_eq_iff_key_eq (blake : List UInt8 → List UInt8) (a b : Str)
+    (hcoll : ∀ d d', key a = .canon d → key b = .canon d' →
+      Seqhash.hex (blake (d.map fun c => c.toNat.toUInt8)) = Seqhash.hex (blake (d'.map fun c => c.toNat.toUInt8)) → d = d') :
+    Seqhash.hashSpec blake a "DNA" true true = Seqhash.hashSpec blake b "DNA" true true ↔ key a = key b := by
+  rw [key_hashSpec, key_hashSpec]
+  cases ha : key a with
+  | invalid => cases hb : key b <;> simp
+  | canon d =>
+    cases hb : key b with
+    | invalid => simp
+    | canon d' =>
+      simp only [Seqhash.Outcome.ok.injEq, Key.canon.injEq]
+      constructor
+      · intro h
+        have h' := List.append_cancel_left h
+        exact hcoll d d' ha hb h'
+      · rintro rfl; rfl
 
 /-- equal key ⇔ same circular double-stranded molecule (DNA strings) -/
 theorem key_eq_iff_sameMolecule {a b : Str} (ha : isDna a = true) (hb : isDna b = true) :
